@@ -211,6 +211,9 @@ class MainTransformer(object):
         if not target:
             message.warn_node(node,
                 "Can't find symbol '%s' referenced by \"rename-to\" annotation" % (rename_to, ))
+        elif target is node:
+            message.warn_node(node,
+                "Function '%s' can't be renamed to itself" % (node.symbol, ))
         elif target.shadowed_by:
             message.warn_node(node,
                 "Function '%s' already shadowed by '%s', can't overwrite "
